@@ -30,6 +30,17 @@ fn operands2(ev: Ev) -> [&'static str; 4] {
     }
 }
 
+fn operands3(ev: Ev) -> [&'static str; 4] {
+    // operands at the edge of the type: shift counts that reach the sign bit, products and sums at the range limit
+    match ev {
+        Ev::I64 => ["200", "56", "56", "3"],
+        Ev::Cpx => ["(0-2)", "2", "0.5", "i"],
+        Ev::Dec => ["7000000000000000000000000000", "100", "15", "0.0000000000000000000000000003"],
+        Ev::Num => ["9007199254740993", "3", "2.0", "0.5"],
+        Ev::F64 => ["9007199254740993", "3", "0.1", "(0-0)"],
+    }
+}
+
 fn operands(ev: Ev) -> [&'static str; 4] {
     match ev {
         Ev::I64 => ["2", "3", "5", "7"],
@@ -79,7 +90,7 @@ fn groupings(k: usize) -> Vec<Vec<(usize, usize)>> {
 }
 
 struct Space {
-    alt: bool,
+    alt: u8,
     ev: Ev,
     k: usize,
     ops: Vec<BinOp>,
@@ -103,7 +114,11 @@ impl Space {
             idx /= self.decs.len() as u64;
         }
         let g = &self.groups[(idx % self.groups.len() as u64) as usize];
-        let base = if self.alt { operands2(self.ev) } else { operands(self.ev) };
+        let base = match self.alt {
+            0 => operands(self.ev),
+            1 => operands2(self.ev),
+            _ => operands3(self.ev),
+        };
         let mut s = String::new();
         for i in 0..=self.k {
             if g.iter().any(|sp| sp.0 == i) {
@@ -130,9 +145,10 @@ fn spaces(sub: &str, tier: Tier) -> Vec<Space> {
             ("enum3", Tier::Quick) => (3, 0),
             _ => (3, 1),
         };
-        v.push(Space { alt: false, ev, k, ops: BinOp::for_ev(ev), decs: decorations(ev, red), groups: groupings(k) });
+        v.push(Space { alt: 0, ev, k, ops: BinOp::for_ev(ev), decs: decorations(ev, red), groups: groupings(k) });
         if k <= 2 {
-            v.push(Space { alt: true, ev, k, ops: BinOp::for_ev(ev), decs: decorations(ev, if k == 1 { 2 } else { 1 }), groups: groupings(k) });
+            v.push(Space { alt: 1, ev, k, ops: BinOp::for_ev(ev), decs: decorations(ev, if k == 1 { 2 } else { 1 }), groups: groupings(k) });
+            v.push(Space { alt: 2, ev, k, ops: BinOp::for_ev(ev), decs: decorations(ev, if k == 1 { 2 } else { 1 }), groups: groupings(k) });
         }
     }
     v
@@ -208,7 +224,7 @@ impl Prop for C04Prop {
         "C04"
     }
     fn rule(&self) -> String {
-        "Well-formed expressions of every evaluator. Exhaustive: all chains of 1, 2 and 3 infix operators from the evaluator's full operator set over distinct operands, each operand optionally decorated (prefix -/+, postfix !, °, rad, superscript, ( ), ⌊ ⌋, ⌈ ⌉; enum3: reduced decoration set) and every single round-bracket span; long forms (flat chains of 2..512 operands per operator with order-sensitive operands such as 1e16+1.0+1.0… and i64::MAX+1+0…+(-2), deep brackets, prefix and postfix chains); random trees of depth <=6 (operators, prefix/postfix forms, brackets, calls, juxtaposition) beyond. Oracles: (a) exact reference evaluation of the stratified reference parse (bit-exact f64, i128-exact i64 with Err, typed number, exact decimal, component-exact complex + - *); (b) the fully bracketed, explicit-product rendering of the reference parse must evaluate to the same outcome bit for bit. non-trivial = >=2 operator nodes, two operator nodes directly nested without brackets, and (where the reference can tell) regrouping that pair changes the value; distinct by (evaluator,input,placeholder).".into()
+        "Well-formed expressions of every evaluator. Exhaustive: all chains of 1, 2 and 3 infix operators from the evaluator's full operator set over distinct operands, each operand optionally decorated (prefix -/+, postfix !, °, rad, superscript, ( ), ⌊ ⌋, ⌈ ⌉; enum3: reduced decoration set) and every single round-bracket span; long forms (flat chains of 2..512 operands per operator with order-sensitive operands such as 1e16+1.0+1.0… and i64::MAX+1+0…+(-2), deep brackets, prefix and postfix chains); random trees of depth <=6 (operators, prefix/postfix forms, brackets, calls, juxtaposition) beyond. Oracles: (a) exact reference evaluation of the stratified reference parse (bit-exact f64, i128-exact i64 with Err, typed number, exact decimal, component-exact complex + - *); (b) the fully bracketed, explicit-product rendering of the reference parse must evaluate to the same outcome bit for bit; (c) the same rendering with every operator node multiplied by 1 (opaque to shape-matching folds; not for complex, trees of <= 48 nodes). A third operand set per evaluator sits at the edge of the type (shift counts reaching the sign bit, 2^53+1, Decimal range/scale limits). non-trivial = >=2 operator nodes, two operator nodes directly nested without brackets, and (where the reference can tell) regrouping that pair changes the value; distinct by (evaluator,input,placeholder).".into()
     }
     fn subs(&self, tier: Tier) -> Vec<Sub> {
         let mut v = Vec::new();
@@ -282,6 +298,28 @@ impl Prop for C04Prop {
                 return Err(Failure::new(format!("{}/bracketing/{}", ev.name(), hd), format!("same outcome as {:?}: {}", full, o2.show()), o.show()));
             }
             sc.class("(b) bracketed rendering agrees");
+        }
+        // (c) the same with every operator node made opaque by a neutral `*1`: a fold that pattern-matches operand shapes
+        // through the brackets rewrites (b)'s rendering exactly as it rewrites the input
+        if ev != Ev::Cpx && grammar::size(&e) <= 48 {
+            let opq = grammar::render_opaque(&e);
+            if let Some(o3) = eval_normal(sc, ev, &opq, &case.ph) {
+                // rust_decimal gives a zero product scale 0 (0.00*1 = 0), so for Decimal (c) compares values, not scales
+                let agree = |a: &crate::api::Outcome, b: &crate::api::Outcome| match (a, b) {
+                    (crate::api::Outcome::Ok(Val::D(x)), crate::api::Outcome::Ok(Val::D(y))) => x == y,
+                    _ => a.same(b),
+                };
+                if !agree(&o, &o3) {
+                    let ph = case.ph.clone();
+                    let hd = localise(&e, &mut |n| {
+                        let (s, f) = (grammar::render(n), grammar::render_opaque(n));
+                        let (a, b) = (crate::api::eval(ev, &s, &ph), crate::api::eval(ev, &f, &ph));
+                        !a.is_abnormal() && !b.is_abnormal() && !agree(&a, &b)
+                    });
+                    return Err(Failure::new(format!("{}/opaque-bracketing/{}", ev.name(), hd), format!("same outcome as {:?}: {}", opq, o3.show()), o.show()));
+                }
+                sc.class("(c) opaque bracketed rendering agrees");
+            }
         }
         let ops = grammar::op_count(&e);
         if ops >= 2 && has_nested_pair(&e) {
